@@ -203,7 +203,8 @@ structure ConstHeight (cfg : Cfg) (h : Nat) (sh : Shared) (progs : List (List Op
   rend : sh.renderable.length = h
   ops : ∀ t, ∀ op ∈ progs.getD t [], StableOp h op = true
 
-/- FULL STATEMENT (not provable for today's code — see the witness below): the same conclusion for every
+/- FULL STATEMENT (not provable for the code in /repo, which is rich 9.10.0 as found in this respect: known findings
+`live-print-vs-*`, not repaired — see the witness below): the same conclusion for every
 session, i.e. without `ConstHeight.shape / rend / ops` (frames of any height, threads may start and stop
 the display).  It fails because `Console.print` computes `position_cursor()` from `_shape` inside
 `process_renderables`, renders, and writes later, outside the live lock; a write of another thread in
@@ -235,7 +236,7 @@ theorem live_screen_under_schedules_partial (cfg : Cfg) (h : Nat) (sh : Shared) 
   rw [this, replay_append]
   exact hrows
 
-/-! ## Witness: the general statement fails for today's code (finding F22) -/
+/-! ## Witness: the general statement fails for the code in /repo (finding F22 = known findings `live-print-vs-*`, not repaired) -/
 
 def cfgW : Cfg := { kind := .live, width := 20, height := 8, record := false, transient := false }
 
@@ -271,7 +272,7 @@ example :
       [['a'], ['H', '1'], ['H', '2'], ['H', '3'], ['H', '4']] := by
   decide
 
-/-! ## Witness: today's `Progress.stop` finishes outside its lock -/
+/-! ## Witness: `Progress.stop` finishes outside its lock (known finding `progress-stop-tail-vs-start`, not repaired: /repo still does this) -/
 
 def cfgP (tailUnlocked : Bool) : Cfg :=
   { kind := .progress, width := 20, height := 8, record := false, transient := true, stopTailUnlocked := tailUnlocked }
@@ -288,7 +289,7 @@ thread 0 finishes `stop()` (transient erase, `_shape = None`), thread 1 gets fur
 def schedP : List Nat := List.replicate 81 0 ++ List.replicate 80 1 ++ List.replicate 20 0 ++ List.replicate 80 1
 
 set_option maxRecDepth 100000 in
-/-- Today's code (`stopTailUnlocked = true`): the restarted display is drawn on the row below the one `stop()` then
+/-- The code in /repo (`stopTailUnlocked = true`, as in rich 9.10.0 as found; known finding `progress-stop-tail-vs-start`): the restarted display is drawn on the row below the one `stop()` then
 erases, and `stop()`'s late `_shape = None` makes the display forget the frame it has on screen — the screen ends as a
 blank row followed by the frame, with no recorded shape although the display is started. -/
 theorem old_progress_stop_tail_races_start :
